@@ -17,7 +17,7 @@ CACHES_RULE = (
 CACHES_DB_RULE = (
     " caches-db run: a case = a real store (leaf cache 0 / 1 MiB = 0 / 8 leaves per shard, 1..4 commit workers, page cache 0 / 1 / 4 MiB, 0..3 pinned levels, prepopulation on / off, warm-up) with 3..6 "
     "commits of fat values (3 per leaf; hundreds of leaves; page numbers recycled from the second commit on) interleaved with direct and session reads.  Every LeafCache::get (observed under the shard "
-    "lock), insert (observed at its three call sites) and per-shard evict of the REAL code is (a) checked against the ln FILE — a hit must return, an insertion must pass, byte for byte the page stored "
+    "lock), insert (observed at its three call sites; report and insertion under one order lock with every observed get / evict) and per-shard evict of the REAL code is (a) checked against the ln FILE — a hit must return, an insertion must pass, byte for byte the page stored "
     "at that page number at that moment: the callers' protocol LProto of the transparency theorem — and (b) replayed by the Lean mirror, which must predict every hit and miss; read values are compared "
     "with a BTreeMap (tag C01)."
 )
